@@ -1300,40 +1300,61 @@ func (c *Ctx) queueKeepsWhatItIsGiven(rule string) {
 			}
 			n++
 			bad := ""
-			if len(whole) > 0 {
-				for _, ret := range engine.Returns(f) {
-					if lr := engine.LastResult(ret); lr != nil && lr.Type().String() == "error" && !engine.IsNilConst(lr) {
+			// an element is also taken care of when it is handled on the spot (PushResponder while idling)
+			consume := map[ssa.Instruction]bool{}
+			for in := range elem {
+				consume[in] = true
+			}
+			for _, cs := range engine.Calls(f) {
+				cc := cs.Common()
+				if cs.Instr.Parent() == f && cc.IsInvoke() && cc.Method.Name() == "handle" && engine.IsNamed(cc.Value.Type(), "internal/state", "Responder") {
+					fromPar := engine.AnyBackward(cc.Value, engine.FlowOpts{Loads: true}, func(x ssa.Value) bool {
+						if u, ok := x.(*ssa.UnOp); ok {
+							if ia, ok := u.X.(*ssa.IndexAddr); ok {
+								return engine.AnyBackward(ia.X, engine.FlowOpts{Loads: true}, func(y ssa.Value) bool { return y == ssa.Value(par) })
+							}
+						}
+						return false
+					})
+					if fromPar {
+						consume[cs.Instr] = true
+					}
+				}
+			}
+			cut := map[ssa.Instruction]bool{}
+			for in := range whole {
+				cut[in] = true
+			}
+			loops := engine.RangeLoopsOver(f, func(sv ssa.Value) bool {
+				return engine.AnyBackward(sv, engine.FlowOpts{Loads: true}, func(y ssa.Value) bool { return y == ssa.Value(par) })
+			})
+			for _, h := range loops {
+				body := engine.LoopBody(h)
+				complete := len(consume) > 0
+				for _, s := range h.Succs {
+					if !body[s] || s == h {
 						continue
 					}
-					if engine.ReachesAvoiding(f, ret, whole, nil) {
-						bad = "a return (" + P.Pos(ret.Pos()) + ") is reached without the append of the parameter"
-					}
-				}
-			} else {
-				loops := engine.RangeLoopsOver(f, func(sv ssa.Value) bool {
-					return engine.AnyBackward(sv, engine.FlowOpts{Loads: true}, func(y ssa.Value) bool { return y == ssa.Value(par) })
-				})
-				if len(loops) == 0 {
-					bad = "elements of the parameter are appended outside a loop over it"
-				}
-				for _, h := range loops {
-					body := engine.LoopBody(h)
-					for _, s := range h.Succs {
-						if !body[s] || s == h {
-							continue
-						}
-						if engine.ReachesAvoidingFrom(s, 0, h.Instrs[0], elem, nil) {
+					if engine.ReachesAvoidingFrom(s, 0, h.Instrs[0], consume, nil) {
+						complete = false
+						if len(elem) > 0 {
 							bad = "an iteration of the loop over the parameter can reach the next one without appending the element (" + P.Pos(firstPosOf(h)) + ")"
 						}
 					}
-					for _, ret := range engine.Returns(f) {
-						if lr := engine.LastResult(ret); lr != nil && lr.Type().String() == "error" && !engine.IsNilConst(lr) {
-							continue
-						}
-						if engine.ReachesAvoiding(f, ret, map[ssa.Instruction]bool{h.Instrs[0]: true}, nil) {
-							bad = "a return (" + P.Pos(ret.Pos()) + ") is reached without running the loop over the parameter"
-						}
-					}
+				}
+				if complete {
+					cut[h.Instrs[0]] = true
+				}
+			}
+			if len(whole) == 0 && len(loops) == 0 {
+				bad = "elements of the parameter are appended outside a loop over it"
+			}
+			for _, ret := range engine.Returns(f) {
+				if lr := engine.LastResult(ret); lr != nil && lr.Type().String() == "error" && !engine.IsNilConst(lr) {
+					continue
+				}
+				if bad == "" && engine.ReachesAvoiding(f, ret, cut, nil) {
+					bad = "a return (" + P.Pos(ret.Pos()) + ") is reached without the append of the parameter (or a loop that appends / handles every element)"
 				}
 			}
 			R.Check(bad == "", rule, c.name(f)+"|queues all of "+par.Name(), P.Pos(f.Pos()), "every responder handed in is appended to State.res", "State.res does not receive every responder the function is given: "+bad+" - a dropped responder is an update (an EXPUNGE, an EXISTS, a FETCH) the session is never told about")
